@@ -40,6 +40,8 @@ def trees():
         out["mut-%s-%s" % (prop, os.path.basename(p)[:-6])] = ("mutant", p, [prop])
     for m in sorted(glob.glob(os.path.join(VERIF, "seeded", "*", "meta.json"))):
         j = json.load(open(m))
+        if j.get("not_reported"):
+            continue        # a confirmed change no rule reports (documented in its meta.json and in DESIGN 10.4)
         props = sorted({j.get("property_id")} | {str(c).split("/")[0] for c in j.get("caught_by", [])})
         out["seed-" + os.path.basename(os.path.dirname(m))] = ("mutant", os.path.join(os.path.dirname(m), "patch.diff"), [x for x in props if x])
     return out
